@@ -1,74 +1,1075 @@
+// c29: length-prefixed framing of util/bytes.go: round trip, truncation, no silent drop, any chunking.
+//
+// The parent process re-executes itself with -child (memory capped with RLIMIT_AS) so that a crash of the
+// real code that recover() cannot catch (out of memory on a hostile length, fatal errors) is an observable:
+// the parent then writes result.json with a "crash" failure carrying the case that was running.
 package main
 
 import (
 	"bytes"
+	"context"
+	"encoding/hex"
+	"encoding/json"
+	"errors"
+	"flag"
 	"fmt"
 	"io"
+	"os"
+	"os/exec"
+	"path/filepath"
 	"runtime"
+	"runtime/debug"
+	"strings"
+	"syscall"
 
 	"github.com/spikeekips/mitum/util"
+	"verifharness/vh"
 )
 
+// ---------------------------------------------------------------- environment: chunking reader (same spec as Model.v reader)
+
+var errIO = errors.New("io failure (harness)")
+
 type chunkReader struct {
-	b      []byte
-	sizes  []int
-	i      int
-	eofTog bool
+	chunks [][]byte
+	ending int // 0: (0,EOF) after the last byte; 1: EOF together with the last chunk; 2: (0, errIO) after the last byte
+	reads  int
 }
 
 func (c *chunkReader) Read(p []byte) (int, error) {
-	if len(c.b) == 0 {
+	c.reads++
+	if len(p) == 0 {
+		return 0, nil
+	}
+	if len(c.chunks) == 0 {
+		if c.ending == 2 {
+			return 0, errIO
+		}
 		return 0, io.EOF
 	}
-	n := len(c.b)
-	if c.i < len(c.sizes) && c.sizes[c.i] < n {
-		n = c.sizes[c.i]
+	ch := c.chunks[0]
+	if len(ch) <= len(p) {
+		copy(p, ch)
+		c.chunks = c.chunks[1:]
+		if len(c.chunks) == 0 && c.ending == 1 {
+			return len(ch), io.EOF
+		}
+		return len(ch), nil
 	}
-	c.i++
-	if n > len(p) {
-		n = len(p)
+	copy(p, ch[:len(p)])
+	c.chunks[0] = ch[len(p):]
+	return len(p), nil
+}
+
+func (c *chunkReader) rest() []byte {
+	var b []byte
+	for _, ch := range c.chunks {
+		b = append(b, ch...)
 	}
-	copy(p, c.b[:n])
-	c.b = c.b[n:]
-	if len(c.b) == 0 && c.eofTog {
-		return n, io.EOF
+	return b
+}
+
+type chunking struct {
+	Sizes  []int `json:"sizes"`
+	Unit   int   `json:"unit"`
+	Ending int   `json:"ending"`
+}
+
+func split(d []byte, ck chunking) [][]byte {
+	var out [][]byte
+	for _, s := range ck.Sizes {
+		if s > len(d) {
+			s = len(d)
+		}
+		out = append(out, d[:s:s])
+		d = d[s:]
 	}
-	return n, nil
+	if len(d) == 0 {
+		return out
+	}
+	if ck.Unit == 0 {
+		return append(out, d)
+	}
+	for len(d) > 0 {
+		s := ck.Unit
+		if s > len(d) {
+			s = len(d)
+		}
+		out = append(out, d[:s:s])
+		d = d[s:]
+	}
+	return out
+}
+
+func newReader(d []byte, ck chunking) *chunkReader {
+	cp := append([]byte{}, d...)
+	return &chunkReader{chunks: split(cp, ck), ending: ck.Ending}
+}
+
+func randChunking(r *vh.Rand, n int) chunking {
+	ck := chunking{Ending: r.Intn(2)}
+	switch r.Intn(6) {
+	case 0: // whole
+	case 1: // one byte at a time
+		ck.Unit = 1
+	case 2: // one byte first, then whole
+		ck.Sizes = []int{1}
+	case 3: // fixed unit
+		ck.Unit = []int{2, 3, 7, 8, 9, 16, 17, 1200}[r.Intn(8)]
+	default: // random sizes, some zero-length reads
+		k := r.Range(1, 12)
+		for i := 0; i < k; i++ {
+			switch r.Intn(5) {
+			case 0:
+				ck.Sizes = append(ck.Sizes, 0)
+			case 1:
+				ck.Sizes = append(ck.Sizes, r.Range(1, 9))
+			default:
+				ck.Sizes = append(ck.Sizes, r.Range(1, n/2+2))
+			}
+		}
+		if r.Bool() {
+			ck.Unit = r.Range(1, 40)
+		}
+	}
+	return ck
+}
+
+// ---------------------------------------------------------------- running the real code
+
+const (
+	tagOk    = 0
+	tagErr   = 1
+	tagPanic = 2
+)
+
+type sliceObs struct {
+	tag   int
+	items [][]byte
+	rest  []byte
+	msg   string
+}
+
+func canon(m [][]byte) [][]byte {
+	out := make([][]byte, len(m))
+	for i := range m {
+		if m[i] == nil {
+			out[i] = []byte{}
+		} else {
+			out[i] = m[i]
+		}
+	}
+	return out
+}
+
+func readBuf(b []byte) (o sliceObs) {
+	defer func() {
+		if p := recover(); p != nil {
+			o = sliceObs{tag: tagPanic, msg: fmt.Sprint(p)}
+		}
+	}()
+	in := append([]byte{}, b...)
+	m, left, err := util.ReadLengthedBytesSlice(in)
+	if err != nil {
+		return sliceObs{tag: tagErr, msg: err.Error()}
+	}
+	return sliceObs{tag: tagOk, items: canon(m), rest: append([]byte{}, left...)}
+}
+
+func readStream(b []byte, ck chunking) (o sliceObs) {
+	defer func() {
+		if p := recover(); p != nil {
+			o = sliceObs{tag: tagPanic, msg: fmt.Sprint(p)}
+		}
+	}()
+	cr := newReader(b, ck)
+	_, m, err := util.ReadLengthedSlice(cr)
+	if err != nil {
+		return sliceObs{tag: tagErr, msg: err.Error()}
+	}
+	return sliceObs{tag: tagOk, items: canon(m), rest: cr.rest()}
+}
+
+func writeSlice(m [][]byte) (w []byte, ok bool, partial int) {
+	buf := bytes.NewBuffer(nil)
+	if err := util.WriteLengthedSlice(buf, m); err != nil {
+		return nil, false, buf.Len()
+	}
+	w2, err := util.NewLengthedBytesSlice(m)
+	if err != nil || !bytes.Equal(w2, buf.Bytes()) {
+		return buf.Bytes(), false, -1
+	}
+	return buf.Bytes(), true, 0
+}
+
+func itemsEqual(a, b [][]byte) bool {
+	if len(a) != len(b) {
+		return false
+	}
+	for i := range a {
+		if !bytes.Equal(a[i], b[i]) {
+			return false
+		}
+	}
+	return true
+}
+
+// ---------------------------------------------------------------- segments (run-length encoded data for the Coq side)
+
+type seg struct {
+	b []byte
+	n int
+}
+
+func segsFlat(ss []seg) []byte {
+	var out []byte
+	for _, s := range ss {
+		for i := 0; i < s.n; i++ {
+			out = append(out, s.b...)
+		}
+	}
+	return out
+}
+
+func coqSegs(ss []seg) string {
+	xs := make([]string, 0, len(ss))
+	for _, s := range ss {
+		if s.n == 0 {
+			continue
+		}
+		xs = append(xs, vh.Tuple(vh.Hex(s.b), vh.N(uint64(s.n))))
+	}
+	return vh.List(xs)
+}
+
+func itemSegs(m [][]byte) []seg {
+	var out []seg
+	for _, x := range m {
+		if k := len(out); k > 0 && bytes.Equal(out[k-1].b, x) {
+			out[k-1].n++
+			continue
+		}
+		out = append(out, seg{b: x, n: 1})
+	}
+	return out
+}
+
+func coqInts(xs []int) string {
+	ss := make([]string, len(xs))
+	for i, x := range xs {
+		ss[i] = fmt.Sprintf("%d", x)
+	}
+	return "[" + strings.Join(ss, "; ") + "]%N"
+}
+
+func coqHexList(m [][]byte) string {
+	ss := make([]string, len(m))
+	for i, x := range m {
+		ss[i] = vh.Hex(x)
+	}
+	return vh.List(ss)
+}
+
+// ---------------------------------------------------------------- generators
+
+func randItem(r *vh.Rand, maxSize int) []byte {
+	var n int
+	switch r.Intn(16) {
+	case 0, 1, 2:
+		n = 0
+	case 3, 4:
+		n = 1
+	case 5:
+		n = 7
+	case 6, 7:
+		n = 8
+	case 8:
+		n = 9
+	case 9, 10, 11:
+		n = r.Range(2, 64)
+	case 12, 13:
+		n = r.Range(65, 1024)
+	case 14:
+		n = r.Range(1025, 8192)
+	default:
+		n = []int{65535, 65536, r.Range(8193, 65536)}[r.Intn(3)]
+	}
+	if n > maxSize {
+		n = r.Intn(maxSize + 1)
+	}
+	b := r.Bytes(n)
+	if n >= 8 && r.Chance(1, 3) {
+		// payload that looks like a length field
+		copy(b, util.Uint64ToBytes(uint64(r.Intn(70000))))
+	}
+	return b
+}
+
+func randList(r *vh.Rand) [][]byte {
+	var n int
+	switch r.Intn(10) {
+	case 0:
+		n = 0
+	case 1, 2:
+		n = r.Range(1, 3)
+	case 3, 4, 5, 6:
+		n = r.Range(2, 20)
+	case 7, 8:
+		n = r.Range(21, 300)
+	default:
+		n = r.Range(301, 3000)
+	}
+	maxSize := 65536
+	if n > 20 {
+		maxSize = 2048
+	}
+	if n > 300 {
+		maxSize = 64
+	}
+	m := make([][]byte, n)
+	for i := range m {
+		m[i] = randItem(r, maxSize)
+		if len(m[i]) == 0 && r.Bool() {
+			m[i] = nil
+		}
+	}
+	return m
+}
+
+// big lists: counts around the limit and up to 40000, few distinct items (so that they compress for the Coq side)
+func bigList(r *vh.Rand, n int) [][]byte {
+	m := make([][]byte, n)
+	pal := [][]byte{{}, {0xab}, r.Bytes(8), r.Bytes(3)}
+	cur := pal[r.Intn(len(pal))]
+	for i := range m {
+		if r.Chance(1, 5000) {
+			cur = pal[r.Intn(len(pal))]
+		}
+		m[i] = cur
+	}
+	return m
+}
+
+// ---------------------------------------------------------------- replay descriptors
+
+type replay struct {
+	Kind     string    `json:"kind"` // buf | stream | roundtrip | frame | ensure
+	Input    string    `json:"input_hex,omitempty"`
+	Count    int       `json:"count,omitempty"`
+	Items    []string  `json:"items_hex,omitempty"`
+	Chunking *chunking `json:"chunking,omitempty"`
+	Note     string    `json:"note,omitempty"`
+}
+
+func shortHex(b []byte) string {
+	if len(b) > 4096 {
+		return hex.EncodeToString(b[:4096]) + fmt.Sprintf("...(%d bytes)", len(b))
+	}
+	return hex.EncodeToString(b)
+}
+
+func itemsHex(m [][]byte) []string {
+	if len(m) > 64 {
+		m = m[:64]
+	}
+	out := make([]string, len(m))
+	for i := range m {
+		out[i] = shortHex(m[i])
+	}
+	return out
+}
+
+// ---------------------------------------------------------------- the run
+
+type runner struct {
+	o     *vh.Opts
+	r     *vh.Rand
+	res   *vh.Result
+	cases *vh.Cases
+	cur   string // file where the case being run is recorded (for crash reports)
+}
+
+func (h *runner) mark(rp replay) {
+	b, _ := json.Marshal(rp)
+	_ = os.WriteFile(h.cur, b, 0o644)
+}
+
+// largest length field the stream reader would honour with an allocation when fed b (reference scan, used only as a
+// memory guard for the harness itself; see notes/C29.md "allocation on hostile lengths")
+func hostileAlloc(b []byte) uint64 {
+	if len(b) < 8 {
+		return 0
+	}
+	cnt := be(b[:8])
+	if cnt > 1<<20 {
+		return 0
+	}
+	off := uint64(8)
+	for i := uint64(0); i < cnt; i++ {
+		if off+8 > uint64(len(b)) {
+			return 0
+		}
+		l := be(b[off : off+8])
+		if l > uint64(len(b))-off-8 {
+			if l > 1<<31 {
+				return 0
+			}
+			return l
+		}
+		off += 8 + l
+	}
+	return 0
+}
+
+func be(b []byte) uint64 {
+	var x uint64
+	for _, c := range b {
+		x = x<<8 | uint64(c)
+	}
+	return x
+}
+
+const allocGuard = 32 << 20
+
+func (h *runner) addBufCase(input []seg, o sliceObs) {
+	h.cases.Add(fmt.Sprintf("CBuf %s %s %s %s", coqSegs(input), vh.N(uint64(o.tag)), coqSegs(itemSegs(o.items)), vh.Hex(o.rest)),
+		map[string]any{"kind": "buf", "input": shortHex(segsFlat(input)), "tag": o.tag, "n_items": len(o.items), "msg": o.msg})
+}
+
+func (h *runner) addStreamCase(input []seg, ck chunking, o sliceObs) {
+	h.cases.Add(fmt.Sprintf("CStream %s %s %s %s %s %s %s", coqSegs(input), coqInts(ck.Sizes), vh.N(uint64(ck.Unit)), vh.N(uint64(ck.Ending)),
+		vh.N(uint64(o.tag)), coqSegs(itemSegs(o.items)), vh.Hex(o.rest)),
+		map[string]any{"kind": "stream", "input": shortHex(segsFlat(input)), "chunking": ck, "tag": o.tag, "n_items": len(o.items), "msg": o.msg})
+}
+
+func adler(d []byte) uint64 {
+	a, b := uint64(1), uint64(0)
+	for _, x := range d {
+		a = (a + uint64(x)) % 65521
+		b = (b + a) % 65521
+	}
+	return b*65536 + a
+}
+
+// property oracle on one list: write, read back from a buffer and from a stream, truncations
+func (h *runner) oracleList(m [][]byte, model bool, nTrunc int) {
+	res, r := h.res, h.r
+	rp := replay{Kind: "roundtrip", Count: len(m), Items: itemsHex(m)}
+	h.mark(rp)
+	w, ok, partial := writeSlice(m)
+	res.Count(fmt.Sprintf("list:%d:%x", len(m), adler(w)), len(m) > 0)
+	switch {
+	case len(m) == 0:
+		res.Dist("list_count=0")
+	case len(m) <= 3:
+		res.Dist("list_count=1..3")
+	case len(m) <= 300:
+		res.Dist("list_count=4..300")
+	case len(m) <= 32767:
+		res.Dist("list_count=301..32767")
+	default:
+		res.Dist("list_count>32767")
+	}
+	if model && (len(m) <= 40 || len(itemSegs(m)) <= 40) {
+		h.cases.Add(fmt.Sprintf("CWrite %s %s %s %s", coqSegs(itemSegs(canon(m))), vh.Bool(ok), vh.N(uint64(len(w))), vh.N(adler(w))),
+			map[string]any{"kind": "write", "count": len(m), "ok": ok, "len": len(w)})
+	}
+	if !ok {
+		res.Dist("write_refused")
+		if partial != 0 {
+			res.Fail("write-refused-after-partial-write", fmt.Sprintf("WriteLengthedSlice of %d items returned an error after writing %d bytes (or NewLengthedBytesSlice disagrees)", len(m), partial), rp)
+		}
+		return
+	}
+	cm := canon(m)
+	// buffer round trip with trailing data
+	var rest []byte
+	if r.Bool() {
+		rest = r.Bytes(r.Range(1, 20))
+	}
+	in := append(append([]byte{}, w...), rest...)
+	ob := readBuf(in)
+	if ob.tag != tagOk || !itemsEqual(ob.items, cm) || !bytes.Equal(ob.rest, rest) {
+		res.Fail("roundtrip-buf", fmt.Sprintf("%d items written (%d bytes), ReadLengthedBytesSlice -> tag=%d items=%d left=%d %s", len(m), len(w), ob.tag, len(ob.items), len(ob.rest), ob.msg), rp)
+	}
+	small := len(in) <= 1500
+	compress := len(itemSegs(cm)) <= 40
+	if model && (small || compress) {
+		var segs []seg
+		if small {
+			segs = []seg{{in, 1}}
+		} else {
+			segs = append(segs, seg{util.Uint64ToBytes(uint64(len(m))), 1})
+			for _, s := range itemSegs(cm) {
+				segs = append(segs, seg{append(util.Uint64ToBytes(uint64(len(s.b))), s.b...), s.n})
+			}
+			segs = append(segs, seg{rest, 1})
+		}
+		h.addBufCase(segs, ob)
+	}
+	// stream round trip under several chunkings
+	cks := []chunking{{Ending: 0}, {Ending: 1}, {Sizes: []int{1}, Ending: r.Intn(2)}, randChunking(r, len(in)), randChunking(r, len(in))}
+	if len(in) <= 20000 {
+		cks = append(cks, chunking{Unit: 1, Ending: 0}, chunking{Unit: 1, Ending: 1})
+	}
+	for i, ck := range cks {
+		if ck.Unit == 1 && len(in) > 20000 {
+			ck.Unit = 4096
+		}
+		src := in
+		if i%2 == 1 {
+			src = w // stream ends exactly after the last item (io.EOF may come with the last bytes)
+		}
+		rp2 := rp
+		rp2.Kind, rp2.Chunking = "stream", &ck
+		so := readStream(src, ck)
+		wantRest := src[len(w):]
+		if so.tag != tagOk || !itemsEqual(so.items, cm) || !bytes.Equal(so.rest, wantRest) {
+			res.Fail("roundtrip-stream", fmt.Sprintf("%d items written (%d bytes), ReadLengthedSlice chunking=%+v -> tag=%d items=%d unread=%d (want %d) %s", len(m), len(w), ck, so.tag, len(so.items), len(so.rest), len(wantRest), so.msg), rp2)
+		}
+		res.Evaluations++
+		if model && small && len(src) <= 600 {
+			h.addStreamCase([]seg{{src, 1}}, ck, so)
+		}
+	}
+	// truncations: every strict prefix is rejected
+	cuts := []int{}
+	if len(w) <= 300 {
+		for c := 0; c < len(w); c++ {
+			cuts = append(cuts, c)
+		}
+	} else {
+		cuts = append(cuts, 0, 7, 8, 9, 15, 16, len(w)-1, len(w)-8, len(w)-9)
+		for len(cuts) < nTrunc {
+			cuts = append(cuts, r.Intn(len(w)))
+		}
+	}
+	for j, c := range cuts {
+		if c < 0 || c >= len(w) {
+			continue
+		}
+		p := w[:c]
+		res.Evaluations++
+		ob := readBuf(p)
+		if ob.tag != tagErr {
+			res.Fail("truncation-accepted-buf", fmt.Sprintf("prefix of %d/%d bytes of a written list of %d items: ReadLengthedBytesSlice -> tag=%d items=%d %s", c, len(w), len(m), ob.tag, len(ob.items), ob.msg),
+				replay{Kind: "buf", Input: shortHex(p), Count: len(m)})
+		}
+		if len(w) > 5000 && j%10 != 0 {
+			continue
+		}
+		ck := randChunking(r, c)
+		ck.Ending = r.Intn(3)
+		so := readStream(p, ck)
+		if so.tag != tagErr {
+			res.Fail("truncation-accepted-stream", fmt.Sprintf("prefix of %d/%d bytes of a written list of %d items, chunking=%+v: ReadLengthedSlice -> tag=%d items=%d %s", c, len(w), len(m), ck, so.tag, len(so.items), so.msg),
+				replay{Kind: "stream", Input: shortHex(p), Count: len(m), Chunking: &ck})
+		}
+		if model && len(w) <= 300 && (len(w) <= 60 || j%7 == 0) {
+			h.addBufCase([]seg{{p, 1}}, ob)
+			h.addStreamCase([]seg{{p, 1}}, ck, so)
+		}
+	}
+}
+
+// no silent drop: whatever the reader accepts is exactly write(result) ++ rest
+func (h *runner) oracleMutated(in []byte, what string, model bool) {
+	res, r := h.res, h.r
+	h.mark(replay{Kind: "buf", Input: shortHex(in), Note: what})
+	res.Evaluations++
+	ob := readBuf(in)
+	res.Dist(fmt.Sprintf("mutated_buf_tag=%d", ob.tag))
+	switch ob.tag {
+	case tagPanic:
+		res.Fail("panic-buf", "ReadLengthedBytesSlice panicked: "+ob.msg+" ("+what+")", replay{Kind: "buf", Input: shortHex(in), Note: what})
+	case tagOk:
+		w, ok, _ := writeSlice(ob.items)
+		if !ok || !bytes.Equal(append(append([]byte{}, w...), ob.rest...), in) {
+			res.Fail("silent-drop-buf", fmt.Sprintf("ReadLengthedBytesSlice succeeded with %d items, %d left on a %d-byte input that is not write(items)++left (%s)", len(ob.items), len(ob.rest), len(in), what),
+				replay{Kind: "buf", Input: shortHex(in), Note: what})
+		}
+	}
+	if model && len(in) <= 1500 {
+		h.addBufCase([]seg{{in, 1}}, ob)
+	}
+	if a := hostileAlloc(in); a > allocGuard {
+		res.Dist("stream_skipped_hostile_alloc")
+		return
+	}
+	ck := randChunking(r, len(in))
+	ck.Ending = r.Intn(3)
+	h.mark(replay{Kind: "stream", Input: shortHex(in), Chunking: &ck, Note: what})
+	so := readStream(in, ck)
+	res.Dist(fmt.Sprintf("mutated_stream_tag=%d", so.tag))
+	switch so.tag {
+	case tagPanic:
+		res.Fail("panic-stream", "ReadLengthedSlice panicked: "+so.msg+" ("+what+")", replay{Kind: "stream", Input: shortHex(in), Chunking: &ck, Note: what})
+	case tagOk:
+		w, ok, _ := writeSlice(so.items)
+		if !ok || !bytes.Equal(append(append([]byte{}, w...), so.rest...), in) {
+			res.Fail("silent-drop-stream", fmt.Sprintf("ReadLengthedSlice succeeded with %d items, %d unread on a %d-byte input that is not write(items)++unread (%s)", len(so.items), len(so.rest), len(in), what),
+				replay{Kind: "stream", Input: shortHex(in), Chunking: &ck, Note: what})
+		}
+	}
+	if model && len(in) <= 1500 {
+		h.addStreamCase([]seg{{in, 1}}, ck, so)
+	}
+}
+
+func (h *runner) mutate(w []byte, m [][]byte) ([]byte, string) {
+	r := h.r
+	in := append([]byte{}, w...)
+	if len(in) == 0 {
+		return in, "empty"
+	}
+	// offsets of the length fields
+	offs := []int{0}
+	off := 8
+	for _, x := range m {
+		offs = append(offs, off)
+		off += 8 + len(x)
+	}
+	switch r.Intn(8) {
+	case 0, 1, 2: // flip one bit of a length field
+		o := offs[r.Intn(len(offs))]
+		j := o + r.Intn(8)
+		if r.Chance(2, 3) {
+			j = o + 4 + r.Intn(4)
+		}
+		bit := byte(1) << uint(r.Intn(8))
+		in[j] ^= bit
+		return in, fmt.Sprintf("bit flip %#x at %d (length field at %d)", bit, j, o)
+	case 3: // length field +-1
+		o := offs[r.Intn(len(offs))]
+		v := be(in[o : o+8])
+		if r.Bool() {
+			v++
+		} else {
+			v--
+		}
+		copy(in[o:], util.Uint64ToBytes(v))
+		return in, fmt.Sprintf("length field at %d set to %d", o, v)
+	case 4: // count set to a boundary value
+		v := []uint64{32766, 32767, 32768, 40000, 65535, 65536, 1 << 31, 1<<31 - 1, 1 << 32, 1<<63 - 1, 1 << 63, ^uint64(0), ^uint64(0) - 7, ^uint64(0) - 8}[r.Intn(14)]
+		o := offs[r.Intn(len(offs))]
+		if o != 0 && v >= allocGuard && v < 1<<32 {
+			v = 1 << 32
+		}
+		copy(in[o:], util.Uint64ToBytes(v))
+		return in, fmt.Sprintf("length field at %d set to %d", o, v)
+	case 5: // random byte anywhere
+		j := r.Intn(len(in))
+		in[j] ^= byte(1 + r.Intn(255))
+		return in, fmt.Sprintf("byte flip at %d", j)
+	case 6: // drop or duplicate a byte
+		j := r.Intn(len(in))
+		if r.Bool() {
+			return append(in[:j:j], in[j+1:]...), fmt.Sprintf("byte %d removed", j)
+		}
+		return append(in[:j+1:j+1], in[j:]...), fmt.Sprintf("byte %d duplicated", j)
+	default: // raw random bytes with a plausible count
+		n := r.Range(0, 64)
+		b := r.Bytes(n)
+		if n >= 8 {
+			copy(b, util.Uint64ToBytes(uint64(r.Intn(5))))
+		}
+		return b, "raw"
+	}
+}
+
+// ---------------------------------------------------------------- EnsureRead
+
+func (h *runner) ensureCases(n int) {
+	r, res := h.r, h.res
+	for i := 0; i < n; i++ {
+		d := r.Bytes(r.Range(0, 40))
+		ck := randChunking(r, len(d))
+		ck.Ending = r.Intn(3)
+		k := r.Range(0, len(d)+3)
+		if r.Chance(1, 3) {
+			k = len(d)
+		}
+		cr := newReader(d, ck)
+		buf := make([]byte, k)
+		tag, eof := tagOk, false
+		var data []byte
+		func() {
+			defer func() {
+				if p := recover(); p != nil {
+					tag = tagPanic
+				}
+			}()
+			nn, err := util.EnsureRead(context.Background(), cr, buf)
+			switch {
+			case err == nil:
+				data = buf[:nn]
+			case errors.Is(err, io.EOF):
+				data, eof = buf[:nn], true
+			default:
+				tag = tagErr
+			}
+			if tag == tagOk && int(nn) != k {
+				res.Fail("ensure-read-short", fmt.Sprintf("EnsureRead returned n=%d for a %d-byte buffer without error", nn, k), replay{Kind: "ensure", Input: hex.EncodeToString(d), Chunking: &ck, Count: k})
+			}
+		}()
+		res.Evaluations++
+		// oracle: success iff enough bytes; data is the prefix; nothing over-read
+		if tag == tagPanic {
+			res.Fail("panic-ensure", "EnsureRead panicked", replay{Kind: "ensure", Input: hex.EncodeToString(d), Chunking: &ck, Count: k})
+		}
+		if (tag == tagOk) != (k <= len(d)) {
+			res.Fail("ensure-read-wrong-outcome", fmt.Sprintf("EnsureRead of %d bytes from %d available: tag=%d", k, len(d), tag), replay{Kind: "ensure", Input: hex.EncodeToString(d), Chunking: &ck, Count: k})
+		}
+		rest := cr.rest()
+		if tag == tagOk && (!bytes.Equal(data, d[:k]) || !bytes.Equal(rest, d[k:])) {
+			res.Fail("ensure-read-wrong-data", fmt.Sprintf("EnsureRead of %d bytes returned wrong bytes or over-read", k), replay{Kind: "ensure", Input: hex.EncodeToString(d), Chunking: &ck, Count: k})
+		}
+		if tag != tagOk {
+			data, rest, eof = nil, nil, false
+		}
+		h.cases.Add(fmt.Sprintf("CEnsure %s %s %s %s %s %s %s %s %s", vh.Hex(d), coqInts(ck.Sizes), vh.N(uint64(ck.Unit)), vh.N(uint64(ck.Ending)), vh.N(uint64(k)),
+			vh.N(uint64(tag)), vh.Hex(data), vh.Bool(eof), vh.Hex(restIf(tag, rest))),
+			map[string]any{"kind": "ensure", "input": hex.EncodeToString(d), "chunking": ck, "k": k, "tag": tag})
+	}
+}
+
+func restIf(tag int, rest []byte) []byte {
+	if tag != tagOk {
+		return nil
+	}
+	return rest
+}
+
+// ---------------------------------------------------------------- frames
+
+type frameObs struct {
+	tag    int
+	ver    []byte
+	hdrs   [][]byte
+	bodies [][]byte
+	tail   []byte
+	msg    string
+}
+
+func writeFrame(hdrs, bodies [][]byte, tail []byte) ([]byte, bool) {
+	fw, buf := util.NewBufferBytesFrameWriter()
+	if err := fw.Header(hdrs...); err != nil {
+		return nil, false
+	}
+	for _, b := range bodies {
+		if err := fw.Lengthed(b); err != nil {
+			return nil, false
+		}
+	}
+	if len(tail) > 0 {
+		if _, err := fw.Writer().Write(tail); err != nil {
+			return nil, false
+		}
+	}
+	return append([]byte{}, buf.Bytes()...), true
+}
+
+func readFrame(in []byte, ck chunking, nb int) (o frameObs) {
+	defer func() {
+		if p := recover(); p != nil {
+			o = frameObs{tag: tagPanic, msg: fmt.Sprint(p)}
+		}
+	}()
+	cr := newReader(in, ck)
+	fr, err := util.NewBytesFrameReader(cr)
+	if err != nil {
+		return frameObs{tag: tagErr, msg: "new: " + err.Error()}
+	}
+	v := fr.Version()
+	hs, err := fr.Header()
+	if err != nil {
+		return frameObs{tag: tagErr, msg: "header: " + err.Error()}
+	}
+	var bodies [][]byte
+	for i := 0; i < nb; i++ {
+		called := false
+		if err := fr.Lengthed(func(b []byte) error {
+			called = true
+			bodies = append(bodies, append([]byte{}, b...))
+			return nil
+		}); err != nil {
+			return frameObs{tag: tagErr, msg: "lengthed: " + err.Error()}
+		}
+		if !called {
+			return frameObs{tag: tagErr, msg: "lengthed: callback not called"}
+		}
+	}
+	tail, err := fr.Body()
+	if err != nil {
+		return frameObs{tag: tagErr, msg: "body: " + err.Error()}
+	}
+	return frameObs{tag: tagOk, ver: v[:], hdrs: canon(hs), bodies: canon(bodies), tail: tail}
+}
+
+func (h *runner) addFrameCase(in []byte, ck chunking, nb int, o frameObs) {
+	h.cases.Add(fmt.Sprintf("CFrame %s %s %s %s %s %s %s %s %s %s", vh.Hex(in), coqInts(ck.Sizes), vh.N(uint64(ck.Unit)), vh.N(uint64(ck.Ending)), vh.N(uint64(nb)),
+		vh.N(uint64(o.tag)), vh.Hex(o.ver), coqHexList(o.hdrs), coqHexList(o.bodies), vh.Hex(o.tail)),
+		map[string]any{"kind": "frame", "input": shortHex(in), "chunking": ck, "nb": nb, "tag": o.tag, "msg": o.msg})
+}
+
+func (h *runner) frames(n int) {
+	r, res := h.r, h.res
+	for i := 0; i < n; i++ {
+		nh, nb := r.Intn(4), r.Intn(4)
+		hdrs := make([][]byte, nh)
+		for j := range hdrs {
+			hdrs[j] = randItem(r, 40)
+		}
+		bodies := make([][]byte, nb)
+		for j := range bodies {
+			bodies[j] = randItem(r, 60)
+		}
+		var tail []byte
+		if r.Bool() {
+			tail = r.Bytes(r.Range(1, 30))
+		}
+		w, ok := writeFrame(hdrs, bodies, tail)
+		rp := replay{Kind: "frame", Input: shortHex(w), Count: nb}
+		if !ok {
+			res.Fail("frame-write-error", "BytesFrameWriter refused a small frame", rp)
+			continue
+		}
+		cks := []chunking{{}, {Ending: 1}, {Sizes: []int{1}}, {Sizes: []int{1}, Ending: 1}, {Unit: 1}, {Unit: 1, Ending: 1}, randChunking(r, len(w)), randChunking(r, len(w))}
+		for _, ck := range cks {
+			res.Evaluations++
+			o := readFrame(w, ck, nb)
+			rp.Chunking = &ck
+			if o.tag != tagOk || !bytes.Equal(o.ver, []byte{0, 0}) || !itemsEqual(o.hdrs, canon(hdrs)) || !itemsEqual(o.bodies, canon(bodies)) || !bytes.Equal(o.tail, tail) {
+				res.Fail("roundtrip-frame", fmt.Sprintf("frame with %d headers, %d bodies, %d tail bytes, chunking=%+v: tag=%d headers=%d bodies=%d tail=%d %s", nh, nb, len(tail), ck, o.tag, len(o.hdrs), len(o.bodies), len(o.tail), o.msg), rp)
+			}
+			res.Count("frame:"+hex.EncodeToString(w), true)
+			h.addFrameCase(w, ck, nb, o)
+		}
+		// truncation of the framed part (the raw tail is not framed: cut before it)
+		framed := len(w) - len(tail)
+		for c := 0; c < framed; c++ {
+			if framed > 60 && c%3 != i%3 {
+				continue
+			}
+			ck := randChunking(r, c)
+			ck.Ending = r.Intn(3)
+			res.Evaluations++
+			o := readFrame(w[:c], ck, nb)
+			if o.tag != tagErr {
+				res.Fail("truncation-accepted-frame", fmt.Sprintf("prefix of %d/%d framed bytes, chunking=%+v: tag=%d %s", c, framed, ck, o.tag, o.msg), replay{Kind: "frame", Input: shortHex(w[:c]), Count: nb, Chunking: &ck})
+			}
+			if c%4 == 0 {
+				h.addFrameCase(w[:c], ck, nb, o)
+			}
+		}
+		// mutated frames: no panic
+		for k := 0; k < 3; k++ {
+			in := append([]byte{}, w...)
+			j := r.Intn(len(in))
+			in[j] ^= byte(1) << uint(r.Intn(8))
+			if a := hostileAlloc(in[min(2, len(in)):]); a > allocGuard {
+				continue
+			}
+			if hasHostileBody(in) {
+				continue
+			}
+			ck := randChunking(r, len(in))
+			ck.Ending = r.Intn(3)
+			res.Evaluations++
+			h.mark(replay{Kind: "frame", Input: shortHex(in), Count: nb, Chunking: &ck})
+			o := readFrame(in, ck, nb)
+			if o.tag == tagPanic {
+				res.Fail("panic-frame", "frame reader panicked: "+o.msg, replay{Kind: "frame", Input: shortHex(in), Count: nb, Chunking: &ck})
+			}
+			h.addFrameCase(in, ck, nb, o)
+		}
+	}
+}
+
+// any 8-byte window that decodes to a length between the guard and 2^31 (conservative memory guard for mutated frames)
+func hasHostileBody(in []byte) bool {
+	for i := 0; i+8 <= len(in); i++ {
+		if v := be(in[i : i+8]); v > allocGuard && v < 1<<32 {
+			return true
+		}
+	}
+	return false
+}
+
+// ---------------------------------------------------------------- main
+
+func child(o *vh.Opts) {
+	// cap the address space: a hostile length must never make the check eat the machine
+	_ = syscall.Setrlimit(syscall.RLIMIT_AS, &syscall.Rlimit{Cur: 12 << 30, Max: 12 << 30})
+	debug.SetGCPercent(50)
+	h := &runner{o: o, r: vh.NewRand(o.Seed), cur: filepath.Join(o.Out, "current_case.json"),
+		res:   vh.NewResult("lists written by WriteLengthedSlice/NewLengthedBytesSlice read back by ReadLengthedBytesSlice (with trailing data) and ReadLengthedSlice (chunked readers, 3 EOF policies); every/200 strict prefixes; bit flips, +-1 and boundary values in length fields, byte flips/drops/dups, raw bytes; frames; EnsureRead. Non-trivial = non-empty list / frame"),
+		cases: &vh.Cases{Import: "From MV Require Import C29.Model.", Type: "case", CheckFn: "check", Shard: 250}}
+	res := h.res
+
+	if o.Replay != "" {
+		var rp replay
+		if err := vh.ReadReplay(o.Replay, &rp); err == nil {
+			fmt.Printf("replay: %+v\n", rp)
+			if b, err := hex.DecodeString(rp.Input); err == nil && rp.Input != "" {
+				ob := readBuf(b)
+				fmt.Printf("  ReadLengthedBytesSlice: tag=%d items=%d left=%d %s\n", ob.tag, len(ob.items), len(ob.rest), ob.msg)
+				ck := chunking{}
+				if rp.Chunking != nil {
+					ck = *rp.Chunking
+				}
+				if hostileAlloc(b) <= allocGuard {
+					so := readStream(b, ck)
+					fmt.Printf("  ReadLengthedSlice %+v: tag=%d items=%d unread=%d %s\n", ck, so.tag, len(so.items), len(so.rest), so.msg)
+				}
+				if rp.Kind == "frame" {
+					of := readFrame(b, ck, rp.Count)
+					fmt.Printf("  frame %+v nb=%d: tag=%d hdrs=%d bodies=%d tail=%d %s\n", ck, rp.Count, of.tag, len(of.hdrs), len(of.bodies), len(of.tail), of.msg)
+				}
+			}
+		}
+	}
+
+	// corpus: the formerly failing inputs, always first
+	// (1) 40000 items: written, then read back as 0 items without error (ReadLengthedBytesSlice returned nil,nil,nil)
+	for _, n := range []int{40000, 32768, 32767, 32766} {
+		m := make([][]byte, n)
+		for i := range m {
+			m[i] = []byte{0xab}
+		}
+		h.oracleList(m, true, 24)
+	}
+	// a hand-made buffer announcing 40000 items (what the unfixed writer produced)
+	{
+		segs := []seg{{util.Uint64ToBytes(40000), 1}, {append(util.Uint64ToBytes(1), 0xab), 40000}}
+		in := segsFlat(segs)
+		ob := readBuf(in)
+		res.Evaluations++
+		if ob.tag != tagErr {
+			res.Fail("silent-drop-buf", fmt.Sprintf("a buffer holding 40000 one-byte items: ReadLengthedBytesSlice -> tag=%d items=%d left=%d (no error)", ob.tag, len(ob.items), len(ob.rest)),
+				replay{Kind: "buf", Count: 40000, Note: "u64be(40000) ++ 40000 x (u64be(1) ++ ab)"})
+		}
+		h.addBufCase(segs, ob)
+		so := readStream(in, chunking{Unit: 4096})
+		if so.tag != tagErr {
+			res.Fail("silent-drop-stream", "a stream holding 40000 one-byte items was accepted", replay{Kind: "stream", Count: 40000})
+		}
+		h.addStreamCase(segs, chunking{Unit: 4096}, so)
+	}
+	// (2) frame whose first Read delivers a single byte (version read with one Read call)
+	{
+		w, _ := writeFrame([][]byte{[]byte("a"), []byte("bc")}, [][]byte{[]byte("body")}, nil)
+		for _, ck := range []chunking{{Sizes: []int{1}}, {Unit: 1}, {Sizes: []int{0, 1, 0, 1}}} {
+			o := readFrame(w, ck, 1)
+			res.Evaluations++
+			if o.tag != tagOk || len(o.hdrs) != 2 || len(o.bodies) != 1 {
+				res.Fail("roundtrip-frame", fmt.Sprintf("frame delivered with a 1-byte first chunk: tag=%d headers=%d bodies=%d %s", o.tag, len(o.hdrs), len(o.bodies), o.msg), replay{Kind: "frame", Input: hex.EncodeToString(w), Count: 1, Chunking: &ck})
+			}
+			h.addFrameCase(w, ck, 1, o)
+		}
+	}
+
+	// generated lists
+	nl := o.Pick(260, 6000)
+	nTrunc := 200
+	for i := 0; i < nl; i++ {
+		m := randList(h.r)
+		h.oracleList(m, true, nTrunc)
+		// mutations of this list's encoding
+		w, ok, _ := writeSlice(m)
+		if !ok {
+			continue
+		}
+		nm := 8
+		if len(w) > 20000 {
+			nm = 3
+		}
+		for k := 0; k < nm; k++ {
+			in, what := h.mutate(w, m)
+			h.oracleMutated(in, what, k < 3)
+		}
+	}
+	// big lists around the limit and up to 40000 items
+	nb := o.Pick(6, 60)
+	for i := 0; i < nb; i++ {
+		var n int
+		switch i % 6 {
+		case 0:
+			n = h.r.Range(32700, 32767)
+		case 1:
+			n = h.r.Range(32768, 40000)
+		case 2:
+			n = h.r.Range(3001, 32000)
+		case 3:
+			n = 32767
+		case 4:
+			n = 32768
+		default:
+			n = h.r.Range(20000, 40000)
+		}
+		h.oracleList(bigList(h.r, n), i < 6, 200)
+	}
+	// fully random big lists (oracle only)
+	for i := 0; i < o.Pick(2, 20); i++ {
+		n := h.r.Range(3000, 40000)
+		m := make([][]byte, n)
+		for j := range m {
+			m[j] = randItem(h.r, 24)
+		}
+		h.oracleList(m, false, 200)
+		if w, ok, _ := writeSlice(m); ok {
+			for k := 0; k < 6; k++ {
+				in, what := h.mutate(w, m)
+				h.oracleMutated(in, what, false)
+			}
+		}
+	}
+	h.ensureCases(o.Pick(300, 3000))
+	h.frames(o.Pick(60, 1200))
+
+	var ms runtime.MemStats
+	runtime.ReadMemStats(&ms)
+	res.Note(fmt.Sprintf("harness memory: TotalAlloc=%d MiB Sys=%d MiB; stream cases whose first unsatisfiable length field is in (%d MiB, 2 GiB) are skipped (ReadLengthed allocates the announced length up front, see notes/C29.md)", ms.TotalAlloc>>20, ms.Sys>>20, allocGuard>>20))
+	res.ModelCases = h.cases.Len()
+	if err := h.cases.Write(o.Out); err != nil {
+		panic(err)
+	}
+	res.Write(o.Out)
+	_ = os.Remove(h.cur)
 }
 
 func main() {
-	m := make([][]byte, 40000)
-	for i := range m {
-		m[i] = []byte{byte(i)}
+	isChild := flag.Bool("child", false, "internal")
+	o := vh.ParseFlags()
+	if *isChild {
+		child(o)
+		return
 	}
-	b, err := util.NewLengthedBytesSlice(m)
-	fmt.Println("write", len(b), err)
-	r, left, err := util.ReadLengthedBytesSlice(b)
-	fmt.Println("buf read", len(r), len(left), err)
-	n, hs, err := util.ReadLengthedSlice(bytes.NewReader(b))
-	fmt.Println("stream read", n, len(hs), err)
-
-	// frame
-	fw, buf := util.NewBufferBytesFrameWriter()
-	_ = fw.Header([]byte("a"), []byte("bc"))
-	_ = fw.Lengthed([]byte("body"))
-	raw := append([]byte{}, buf.Bytes()...)
-	fmt.Printf("%x\n", raw)
-	for _, sizes := range [][]int{{1, 1000}, {2, 1000}, {1, 1, 1, 1, 1, 1, 1, 1, 1, 1, 1, 1, 1, 1, 1, 1, 1, 1, 1, 1, 1, 1, 1, 1, 1, 1, 1, 1, 1, 1, 1, 1, 1, 1, 1, 1, 1, 1, 1, 1, 1, 1, 1, 1, 1, 1, 1, 1, 1, 1, 1, 1, 1, 1, 1, 1, 1, 1, 1, 1, 1, 1}} {
-		fr, err := util.NewBytesFrameReader(&chunkReader{b: raw, sizes: sizes})
-		fmt.Println("frame reader", err)
-		hs, err := fr.Header()
-		fmt.Println("  header", hs, err)
-		err = fr.Lengthed(func(b []byte) error { fmt.Printf("  body %q\n", b); return nil })
-		fmt.Println("  lengthed", err)
+	args := append([]string{"-child"}, os.Args[1:]...)
+	cmd := exec.Command(os.Args[0], args...)
+	var stderr bytes.Buffer
+	cmd.Stdout = os.Stdout
+	cmd.Stderr = &stderr
+	err := cmd.Run()
+	os.Stderr.Write(tailBytes(stderr.Bytes(), 4000))
+	if err == nil {
+		return
 	}
+	// the real code killed the process: report it as a failure of the property (never a panic / crash)
+	res := vh.NewResult("crash of the child process while running the real code")
+	var rp any
+	if b, e := os.ReadFile(filepath.Join(o.Out, "current_case.json")); e == nil {
+		_ = json.Unmarshal(b, &rp)
+	}
+	res.Fail("crash", "the process running util/bytes.go died: "+err.Error()+": "+string(tailBytes(stderr.Bytes(), 600)), rp)
+	empty := &vh.Cases{Import: "From MV Require Import C29.Model.", Type: "case", CheckFn: "check"}
+	_ = empty.Write(o.Out)
+	res.Write(o.Out)
+}
 
-	// hostile length
-	var ms runtime.MemStats
-	runtime.ReadMemStats(&ms)
-	before := ms.TotalAlloc
-	hostile := append(util.Uint64ToBytes(0x7fffffff), 1, 2, 3)
-	_, p, err := util.ReadLengthed(bytes.NewReader(hostile))
-	runtime.ReadMemStats(&ms)
-	fmt.Println("hostile", len(p), err, "alloc MiB", (ms.TotalAlloc-before)>>20, "sys MiB", ms.Sys>>20)
+func tailBytes(b []byte, n int) []byte {
+	if len(b) > n {
+		return b[len(b)-n:]
+	}
+	return b
 }
